@@ -443,5 +443,180 @@ theorem kidsHtml_elems (ns : List Node) (h : allElems ns = true) (pos : Pos) :
     | text s => simp [isTextNode] at h
     | elem tag attrs kids => simp [kidsHtml, nodeHtml, ih h.2]
 
+/-- the title element as `inject_meta_context` writes it: escaped text inside RCDATA -/
+theorem run_titleEsc (t : Str) (ht : clean t = true) (f : Frame) (fs : List Frame)
+    (hm : modeOfTag f.tag = .data) (hn : nestOK tTitle ((f :: fs).map (·.tag)) = true) :
+    run ⟨.text, f :: fs⟩ ('<' :: tTitle ++ '>' :: escapeText t ++ '<' :: '/' :: tTitle ++ ['>']) =
+      some ⟨.text, { f with kidsRev := .elem tTitle [] (textTree t) :: f.kidsRev } :: fs⟩ := by
+  have hraw : rawLike tTitle = true := by decide
+  have hopen := run_startTag (st := f :: fs) (tag := tTitle) (attrs := []) hm (by decide) (by decide)
+  have hstart : emitStart ⟨tTitle, expectedAttrs []⟩ false (f :: fs) =
+      some ⟨.text, ⟨tTitle, [], []⟩ :: f :: fs⟩ := by
+    have hn' : nestOK tTitle (f.tag :: List.map (fun x => x.tag) fs) = true := by simpa using hn
+    simp only [emitStart]
+    simp [hn', show tTitle ≠ tTextarea from by decide, show kind tTitle = .rcdata from by decide,
+      expectedAttrs, plainFlat, classBuf, styleBuf]
+  have hbody := run_escapeText t ⟨tTitle, [], []⟩ (f :: fs)
+    (Or.inr (show modeOfTag tTitle = .rcdata from by decide)) ht
+  have hclose := run_rawEnd hraw .text (Or.inl rfl) ⟨tTitle, [], pushStrKids t []⟩ f fs rfl
+  have e : ('<' :: tTitle ++ '>' :: escapeText t ++ '<' :: '/' :: tTitle ++ ['>']) =
+      ('<' :: tTitle ++ attrsHtml [] ++ ['>']) ++ (escapeText t ++ ('<' :: '/' :: tTitle ++ ['>'])) := by
+    simp [attrsHtml, plainPart, classBuf, styleBuf]
+  rw [e, run_append, hopen, hstart, Option.bind_some, run_append, hbody, Option.bind_some, hclose]
+  by_cases h : t = []
+  · subst h; simp [pushStrKids, textTree]
+  · simp [pushStrKids_fresh t [] h rfl, textTree, h]
+
+/-- **head** (repaired code): what `inject_meta_context` inserts parses to the title element holding
+exactly the title text, the marker, and the registered `<meta>` tags with exactly their attribute
+values — for *every* title and all meta strings; the only hypothesis on strings is the absence of
+NUL / CR (F-C06-3/4, which no HTML serialisation can carry). -/
+theorem C06_head (title : Option Str) (metas : List Node)
+    (ht : ∀ t, title = some t → clean t = true)
+    (hm : wfKids [[]] metas = true) (he : allElems metas = true) :
+    parse (headHtml title metas) = some (headStructure title metas) := by
+  have hmetas : ∀ (k : List Tree), headIsText k = false →
+      run ⟨.text, [{ rootFrame with kidsRev := k }]⟩ (kidsHtml false .nextChild metas) =
+        some ⟨.text, [{ rootFrame with kidsRev := (structKids .nextChild metas).reverse ++ k }]⟩ := by
+    intro k hk
+    rw [kidsHtml_elems metas he]
+    exact run_kids metas { rootFrame with kidsRev := k } [] .nextChild hm
+      (show modeOfTag rootFrame.tag = .data from by decide) (by simp [hk])
+  unfold parse initState headHtml headStructure
+  cases title with
+  | none =>
+    simp only [List.nil_append]
+    rw [run_append, run_headMarker (show modeOfTag rootFrame.tag = .data from by decide), Option.bind_some,
+      hmetas _ rfl]
+    simp [finish, rootFrame]
+  | some t =>
+    have h1 := run_titleEsc t (ht t rfl) rootFrame [] (by decide) (by decide)
+    simp only
+    have h2 := run_headMarker
+      (f := ⟨rootFrame.tag, rootFrame.attrs, .elem tTitle [] (textTree t) :: rootFrame.kidsRev⟩) (fs := [])
+      (show modeOfTag rootFrame.tag = .data from by decide)
+    rw [run_append, run_append, h1, Option.bind_some, h2, Option.bind_some]
+    rw [hmetas _ rfl]
+    simp [finish, rootFrame]
+
+/-- the statement over literally every string stays false only through NUL / CR -/
+def C06_head_full : Prop :=
+  ∀ (title : Option Str) (metas : List Node), shapeKids [[]] metas = true → allElems metas = true →
+    parse (headHtml title metas) = some (headStructure title metas)
+
+theorem C06_head_full_false : ¬ C06_head_full := by
+  intro h
+  have := h (some ['a', cNul]) [] (by decide) (by decide)
+  revert this
+  decide
+
+/-- `</title><script>alert(1)</script>` -/
+def payloadTitle : Str :=
+  ['<','/','t','i','t','l','e','>','<','s','c','r','i','p','t','>','a','l','e','r','t','(','1',')',
+   '<','/','s','c','r','i','p','t','>']
+
+/-- the repaired code on the former witness: the title is the payload, nothing else appears -/
+theorem C06_title_fixed :
+    parse (headHtml (some payloadTitle) []) =
+      some [.elem tTitle [] [.text payloadTitle], .comment ['H','E','A','D']] := by
+  have h := C06_head (some payloadTitle) [] (fun t ht => by cases ht; decide) (by decide) (by decide)
+  rw [h]
+  decide
+
+/-! ### regression witnesses: the code before `fix: escape the document title …` (F-C06-2) -/
+
+/-- the old code, for every title and every meta string -/
+def C06_head_old_full : Prop :=
+  ∀ (title : Option Str) (metas : List Node), shapeKids [[]] metas = true → allElems metas = true →
+    parse (headHtmlOld title metas) = some (headStructure title metas)
+
+/-- F-C06-2 (old code): the title was inserted unescaped: it ended the title element and a script
+element appeared (the trailing `</title>` is then a stray end tag: outside the subset, `none`); with
+a balanced payload the injected element shows up in the parse; `&lt;` read back as `<`. -/
+theorem C06_title_old_witness :
+    headHtmlOld (some payloadTitle) [] =
+      ['<','t','i','t','l','e','>'] ++ payloadTitle ++ ['<','/','t','i','t','l','e','>'] ++ sHeadMarker ∧
+    parse (headHtmlOld (some payloadTitle) []) = none ∧
+    parse (headHtmlOld (some (payloadTitle ++ ['<','t','i','t','l','e','>'])) []) =
+      some [.elem tTitle [] [], .elem tScript [] [.text ['a','l','e','r','t','(','1',')']],
+            .elem tTitle [] [], .comment ['H','E','A','D']] ∧
+    parse (headHtmlOld (some ['&','l','t',';']) []) =
+      some [.elem tTitle [] [.text ['<']], .comment ['H','E','A','D']] := by
+  decide
+
+theorem C06_head_old_full_false : ¬ C06_head_old_full := by
+  intro h
+  have := h (some payloadTitle) [] (by decide) (by decide)
+  rw [C06_title_old_witness.2.1] at this
+  cases this
+
+/-! ## tables regenerated from the source (extract.py EscapeTables, Elements) -/
+
+theorem C06_table_text : Leptos.Gen.EscapeTables.escapeText = textTable := by decide
+theorem C06_table_attr : Leptos.Gen.EscapeTables.escapeDoubleQuote = attrTable := by decide
+
+/-- every entity the text escaper writes decodes back to the character it replaced -/
+theorem C06_table_text_decodes :
+    ∀ r ∈ Leptos.Gen.EscapeTables.escapeText, parse r.2 = some [.text [r.1]] := by decide
+
+/-- every entity the attribute escaper writes decodes back inside a double-quoted value -/
+theorem C06_table_attr_decodes :
+    ∀ r ∈ Leptos.Gen.EscapeTables.escapeDoubleQuote,
+      parse (['<','b',' ','x','=','"'] ++ r.2 ++ ['"','>','<','/','b','>']) =
+        some [.elem ['b'] [(['x'], [r.1])] []] := by decide
+
+/-- the model's `isVoid` / `escapeChildren` agree with every row of elements.rs -/
+theorem C06_table_elements :
+    ∀ r ∈ Leptos.Gen.Elements.rows, isVoid r.1 = r.2.1 ∧ escapeChildren r.1 = r.2.2 := by decide
+
+/-- and name no element elements.rs does not have -/
+theorem C06_table_elements_complete :
+    (∀ t ∈ voidTags, (t, true, true) ∈ Leptos.Gen.Elements.rows) ∧
+    (∀ t ∈ rawTags, (t, false, false) ∈ Leptos.Gen.Elements.rows) := by decide
+
+/-- the parser's void elements (from the standard) are void for tachys as well, and the raw-text
+content models coincide: tachys skips escaping exactly where the parser does not decode references
+or where RCDATA would (textarea) -/
+theorem C06_table_parser_agrees :
+    (∀ t ∈ pVoidTags, isVoid t = true) ∧
+    (∀ r ∈ Leptos.Gen.Elements.rows, r.2.2 = false → kind r.1 = .rcdata ∨ kind r.1 = .rawtext ∨ kind r.1 = .script) := by
+  decide
+
+/-- the `view!` macro's own no-escape list names exactly the elements tachys does not escape
+(since `fix: … noscript …` in leptos_macro, C18); its self-closing list still has one extra row,
+`param`, which tachys does not know -/
+theorem C06_table_macro_lists :
+    (∀ r ∈ Leptos.Gen.Elements.rows, Leptos.Gen.Elements.macroNoEscape.contains r.1 = !r.2.2) ∧
+    (∀ t ∈ Leptos.Gen.Elements.macroNoEscape, escapeChildren t = false) ∧
+    ['p','a','r','a','m'] ∈ Leptos.Gen.Elements.macroSelfClosing ∧
+    ['p','a','r','a','m'] ∉ Leptos.Gen.Elements.rows.map (·.1) := by decide
+
+/-! ## non-vacuity -/
+
+/-- hostile strings in every position satisfy the hypotheses of the proved theorem … -/
+example : wfKids [[]]
+    [.elem sDiv [.plain ['i','d'] ['"','>','<','s','c','r','i','p','t','>'], .cls ['a','"',' ','b'],
+                 .styleKV ['c','o','l','o','r'] ['<','/','s','t','y','l','e','>'], .bool ['h','i','d','d','e','n'] true]
+       [.text ['<','/','d','i','v','>','<','!','-','-'], .text [], .text [']',']','>','&','a','m','p',';'],
+        .elem ['i','m','g'] [.plain ['a','l','t'] ['\'','`','=']] [],
+        .elem tTitle [] [.text ['<','/','t','i','t','l','e','>']],
+        .elem ['x','-','f','o','o'] [] [.elem ['p'] [] [.text ['&','#','x','3','c',';']]]]] = true := by decide
+
+/-- … and the conclusion holds on them by evaluation as well -/
+example : parse (toHtml [.elem sDiv [.plain ['i','d'] ['"','>','<']] [.text ['<','/','d','i','v','>'], .text ['&']]]) =
+    some [.elem sDiv [(['i','d'], ['"','>','<'])] [.text ['<','/','d','i','v','>'], .comment [], .text ['&']]] := by
+  decide
+
+example : clean ['<','&','>','"','\'','/','=','`'] = true := by decide
+
+/-- hypotheses of the partial theorems are satisfiable with raw-text elements present -/
+example : shapeKids [[]] [.elem tScript [.plain ['s','r','c'] ['a','&','b']] [], .elem tTextarea [] []] = true ∧
+    rawTextFreeKids [.elem tScript [.plain ['s','r','c'] ['a','&','b']] [], .elem tTextarea [] []] = true ∧
+    cleanKids [.elem tScript [.plain ['s','r','c'] ['a','&','b']] [], .elem tTextarea [] []] = true := by decide
+
+
+example : wfKids [[]] [.elem ['m','e','t','a'] [.plain ['n','a','m','e'] ['"','>'], .plain ['c','o','n','t','e','n','t'] ['<']] []] = true ∧
+    allElems [.elem ['m','e','t','a'] [.plain ['n','a','m','e'] ['"','>'], .plain ['c','o','n','t','e','n','t'] ['<']] []] = true := by
+  decide
 
 end Leptos.Html
